@@ -118,6 +118,76 @@ def gen_ds(rng, mode, BASES, MARKS, OTTAGS):
             "scripts": scripts, "lib": rng.choice(["ufoLib2", "defcon"]), "fmt": rng.choice(["ttf", "ttf", "otf"]), "path": path}
 
 
+def _script_of_pair(k, fd, scripts, BASES):
+    """the script whose letters (or their rule alternates) the FIRST side of a kerning entry belongs to, or None"""
+    side = fd["groups"].get(k[0], [k[0]])[0]
+    stem = side.split(".r")[0]
+    for s in scripts:
+        if stem in [g for g, _ in BASES[s][:2]]:
+            return s
+    return None
+
+
+def gen_ds_uneven(rng, mode, BASES, MARKS, OTTAGS):
+    """a designspace whose masters do NOT all carry the same kerning pairs: per script the pairs are in all masters, only in
+    non-default masters (kerned in Bold only so far), only in the default master, or only in the last master.
+    `kdrop` = [[master index, side1, side2]]: pairs absent from that master's kerning."""
+    c = gen_ds(rng, mode, BASES, MARKS, OTTAGS)
+    fd, nm = c["fd"], len(c["masters"])
+    c["path"] = rng.choice(["vf", "vf", "vf", "vf", "masters"])
+    if rng.random() < 0.75:
+        tags = [t for s in c["scripts"] for t in OTTAGS[s]]
+        c["langsys"] = [[DFLT, "dflt"]] + [[t, "dflt"] for t in tags] + [[t, "TRK"] for t in tags if rng.random() < 0.2]
+        c["lskind"] = "all"
+        fd["features"] = "".join("languagesystem %s %s;\n" % (s_, l) for s_, l in c["langsys"])
+    have = {_script_of_pair(k, fd, c["scripts"], BASES) for k in fd["kerning"]}
+    for s in c["scripts"]:
+        if s not in have:                       # every script is kerned somewhere
+            b = [g for g, _ in BASES[s][:2]]
+            fd["kerning"].append([b[0], b[1], -rng.randrange(5, 80)])
+    kinds, kdrop = {}, []
+    order = list(c["scripts"]); rng.shuffle(order)
+    for n, s in enumerate(order):
+        r = rng.random()
+        if n == 0 and len(order) > 1:
+            kind = "all" if r < 0.8 else "nondefault-only"
+        elif r < 0.55:
+            kind = "nondefault-only"
+        elif r < 0.70:
+            kind = "last-only"
+        elif r < 0.85:
+            kind = "default-only"
+        else:
+            kind = "all"
+        kinds[s] = kind
+        drop = {"all": [], "nondefault-only": [0] + ([rng.choice([1, 2])] if nm > 2 and rng.random() < 0.3 else []),
+                "last-only": list(range(nm - 1)), "default-only": list(range(1, nm))}[kind]
+        for k in fd["kerning"]:
+            if _script_of_pair(k, fd, c["scripts"], BASES) == s:
+                for m in drop:
+                    kdrop.append([m, k[0], k[1]])
+    c["kdrop"] = kdrop
+    c["kkinds"] = sorted(set(kinds.values()))
+    return c
+
+
+def corpus_ds_uneven():
+    """Latin kerned in both masters, Greek only in the Bold (non-default) master; variable font and per-master builds"""
+    g = [{"name": n, "width": 500, "unicodes": [u], "anchors": [["top", 250, 700]]}
+         for n, u in (("A", 0x41), ("V", 0x56), ("Alpha", 0x391), ("Upsilon", 0x3A5))]
+    g.append({"name": "acutecomb", "width": 0, "unicodes": [0x301], "anchors": [["_top", 0, 600], ["top", 0, 800]]})
+    ls = [[DFLT, "dflt"], ["latn", "dflt"], ["latn", "TRK"], ["grek", "dflt"]]
+    out = []
+    for path, fmt in (("vf", "ttf"), ("vf", "otf"), ("masters", "ttf")):
+        fd = {"glyphs": g, "kerning": [["A", "V", -40], ["V", "A", -40], ["Alpha", "Upsilon", -70], ["Upsilon", "Alpha", -70]],
+              "groups": {}, "features": "".join("languagesystem %s %s;\n" % tuple(x) for x in ls)}
+        out.append({"kind": "ds", "fd": fd, "axes": [["wght", "Weight", 400, 400, 700]],
+                    "masters": [{"loc": {"Weight": 400}, "dx": 0}, {"loc": {"Weight": 700}, "dx": 60}], "rules": [],
+                    "kdrop": [[0, "Alpha", "Upsilon"], [0, "Upsilon", "Alpha"]], "kkinds": ["all", "nondefault-only"],
+                    "langsys": ls, "lskind": "corpus", "scripts": ["latn", "grek"], "lib": "ufoLib2", "fmt": fmt, "path": path})
+    return out
+
+
 def corpus_ds():
     """two rules replacing the same Greek letters (weight / width alternates); the Greek kerning is on the FIRST rule's"""
     g = [{"name": "a", "width": 500, "unicodes": [0x61], "anchors": [["top", 250, 500]]},
@@ -144,11 +214,11 @@ def corpus_ds():
 
 # ------------------------------------------------------------------------------------------------ observation
 
-def _master_fd(fd, dx):
+def _master_fd(fd, dx, idx=0, kdrop=()):
     out = dict(fd)
     out["glyphs"] = [dict(g, width=(g["width"] + dx if g["width"] else 0),
                           anchors=[[a[0], a[1] + dx // 2, a[2]] for a in g["anchors"]]) for g in fd["glyphs"]]
-    out["kerning"] = [[l, r, v - dx // 10] for l, r, v in fd["kerning"]]
+    out["kerning"] = [[l, r, v - dx // 10] for l, r, v in fd["kerning"] if [idx, l, r] not in [list(x) for x in kdrop]]
     out["info"] = {"familyName": "C20 DS", "styleName": "M%d" % dx, "ascender": 800, "descender": -200, "xHeight": 500,
                    "capHeight": 700}
     return out
@@ -164,7 +234,7 @@ def make_designspace(case):
         ds.addAxis(ax); names.add(name)
     for i, m in enumerate(case["masters"]):
         src = SourceDescriptor()
-        mfd = _master_fd(case["fd"], m["dx"])
+        mfd = _master_fd(case["fd"], m["dx"], i, case.get("kdrop") or ())
         if case.get("path") == "vf-incompat" and i == 1:
             # a feature file that differs from the default master's (GSUB only, inside one script)
             b = [g["name"] for g in case["fd"]["glyphs"] if g["unicodes"] and g["width"]][:2]
@@ -214,8 +284,22 @@ def run_ds(case, glyph_scripts):
         if entry not in cap["writers"]:
             cap["writers"].append(entry)
         return res
+    from ufo2ft.featureWriters import kernFeatureWriter as kfw
+    orig_v = kfw.KernFeatureWriter.__dict__["getVariableKerningPairs"]
+    cap["varpairs"] = []
+
+    def wrapped_v(designspace, side1Classes, side2Classes, glyphSet, options):
+        res = orig_v.__func__(designspace, side1Classes, side2Classes, glyphSet, options)
+        inv = {tuple(v): k for k, v in list(side1Classes.items()) + list(side2Classes.items())}
+        srcs = [[src.layerName is not None, sorted([a, b] for a, b in src.font.kerning.keys())] for src in designspace.sources]
+        known = sorted(set(side1Classes) | set(side2Classes) | set(glyphSet))
+        got = sorted({(inv[p.side1] if isinstance(p.side1, tuple) else p.side1,
+                       inv[p.side2] if isinstance(p.side2, tuple) else p.side2) for p in res})
+        cap["varpairs"].append({"sources": srcs, "known": known, "obs": [list(x) for x in got]})
+        return res
     bc.BaseInterpolatableCompiler._pre_compile_designspace = wrapped
     bfw.BaseFeatureWriter.extraSubstitutions = wrapped_w
+    kfw.KernFeatureWriter.getVariableKerningPairs = staticmethod(wrapped_v)
     path = case.get("path", "masters")
     err, fonts = None, []
     try:
@@ -235,6 +319,7 @@ def run_ds(case, glyph_scripts):
     finally:
         bc.BaseInterpolatableCompiler._pre_compile_designspace = orig
         bfw.BaseFeatureWriter.extraSubstitutions = orig_w
+        kfw.KernFeatureWriter.getVariableKerningPairs = orig_v
     rules = [[list(s) for s in ru["subs"]] for ru in case["rules"]]
     reqs = []
     sources = {a for ru in rules for a, _ in ru}
@@ -276,17 +361,36 @@ def run_ds(case, glyph_scripts):
     for g in fd["glyphs"]:
         t = gs[g["name"]]
         own.append([g["name"], [] if not g["unicodes"] else (["*"] if t is None else sorted(t))])
-    pairs = []
-    for l, r, _ in fd["kerning"]:
-        for a in fd["groups"].get(l, [l]):
-            for b in fd["groups"].get(r, [r]):
-                pairs.append([a, b])
-    spec = {"rules": rules, "own": own, "pairs": pairs}
+    kdrop = [list(x) for x in case.get("kdrop") or ()]
+
+    def pairs_of(masters):
+        """kerning pairs (groups expanded) present in at least one of the masters with these indices"""
+        out = []
+        for l, r, _ in fd["kerning"]:
+            if all([m, l, r] in kdrop for m in masters):
+                continue
+            for a in fd["groups"].get(l, [l]):
+                for b in fd["groups"].get(r, [r]):
+                    out.append([a, b])
+        return out
+    every = list(range(len(case["masters"])))
+    # a variable font carries the kerning of EVERY master; a per-master build that of its own master
+    spec = {"rules": rules, "own": own, "pairs": pairs_of(every)}
+    if kdrop:
+        kk = case.get("kkinds") or []
+        base_tags += ["ds:uneven-kerning"] + ["ds:kern:" + k for k in kk]
+    # (0) function level: the pair universe of getVariableKerningPairs (variable builds only)
+    for vp in cap["varpairs"]:
+        uneven = len({tuple(map(tuple, s_[1])) for s_ in vp["sources"] if not s_[0]}) > 1
+        reqs.append({"op": "varpairs", "in": {"sources": vp["sources"], "known": vp["known"]}, "obs": vp["obs"],
+                     "tags": ["varpairs", "varpairs:uneven" if uneven else "varpairs:same-in-all-masters"], "nontrivial": uneven})
     if err is not None:
         reqs.append({"op": "ds", "in": spec, "obs": {"err": err}, "tags": base_tags + ["ds:err:" + err], "nontrivial": False})
         return reqs
     seen = []
-    for tt in fonts:
+    for fi, tt in enumerate(fonts):
+        if path == "masters" and kdrop and len(fonts) == len(every):
+            spec = dict(spec, pairs=pairs_of([fi]))
         reach = []
         if "GPOS" in tt:
             for s, langs in gpos.script_features(tt).items():
@@ -294,9 +398,9 @@ def run_ds(case, glyph_scripts):
                     for tag, _ in fl:
                         reach.append([_strip(s), _strip(l), tag])
         reach.sort()
-        if reach in seen:
+        if [reach, spec["pairs"]] in seen:
             continue
-        seen.append(reach)
+        seen.append([reach, spec["pairs"]])
         feats = {k[2] for k in reach}
         nontriv = bool(feats & {"kern", "dist"}) and bool(feats & set(GEN_TAGS))
         reqs.append({"op": "ds", "in": spec, "obs": {"err": None, "reach": reach},
